@@ -6,7 +6,7 @@
 (* wraps the tensors in the response envelope, feeds the real library, and *)
 (* compares each output.                                                   *)
 (***************************************************************************)
-EXTENDS Slice, Sort, Json
+EXTENDS Slice, Smoothing, Json
 
 CONSTANTS
   Scn,       \* scenario name (string), echoed in every line
@@ -193,6 +193,17 @@ C08_2D(tk) ==
 C08_1D(tk) ==
   [ row_order_signed |-> OrderOut(DimR, tk, RowHid(tk), FALSE) ]
 
+C20_2D(tk) ==
+  [ smoothed_column_proportions |-> Num2(SmoothedColProps(tk, RE(tk), CE(tk))),
+    smoothed_column_percentages |-> Num2(Times100(SmoothedColProps(tk, RE(tk), CE(tk)))),
+    smoothed_column_index       |-> Num2(SmoothedColIndex(tk, RE(tk), CE(tk))),
+    smoothed_columns_scale_mean |-> SmoothedColsScaleMean(tk, CE(tk)),
+    column_proportions          |-> Num2(ColPropM(tk, RE(tk), CE(tk))) ]
+C20_2D_Y(tk) ==
+  [ smoothed_means |-> Num2(SmoothedMeans(tk, RE(tk), CE(tk))) ]
+C20_1D_Y(tk) ==
+  [ smoothed_means |-> Num1(SSmoothedMeans(tk, RE(tk))) ]
+
 C11_1D(tk) ==
   [ table_proportion_stddevs |-> Sqrt1(SVarV(tk, RE(tk))),
     table_proportion_stderrs |-> Sqrt1(SSE2V(tk, RE(tk))),
@@ -244,6 +255,8 @@ Part(tk) ==
     [] Family \in {"c07", "c09"} /\ ND > 1 -> C07_2D(tk)
     [] Family = "c08" /\ ND = 1 -> C08_1D(tk)
     [] Family = "c08" /\ ND > 1 -> C08_2D(tk)
+    [] Family = "c20" /\ ND = 1 -> C20_1D_Y(tk)
+    [] Family = "c20" /\ ND > 1 -> IF HasY THEN C20_2D(tk) @@ C20_2D_Y(tk) ELSE C20_2D(tk)
     [] Family = "c04" /\ ND = 1 -> IF HasY THEN C04_1D(tk) @@ C01_1D_Y(tk) ELSE C04_1D(tk)
     [] Family = "c04" /\ ND > 1 -> IF HasY THEN C04_2D(tk) @@ C01_2D_Y(tk) ELSE C04_2D(tk)
 
